@@ -1,10 +1,153 @@
 import VOPyVerif.Drv.Proto
-/-! Driver front end for property C20 (line protocol → executable model). -/
+import VOPyVerif.Model.Problem
+/-! Driver front end for property C20 (problems: nearest-design lookup, decoupled evaluation, noise
+map, data scaling).  Numbers are exact rationals; `_` is the empty list.
+
+* `nearest <x> <X>`            → `Problem.nearestFirst x X` : index, or `none` when `X` is empty
+* `band <x> <X> <tol>`         → indices whose squared distance is `≤ min + tol` (`nearestBand`)
+* `eval <X> <Y> <xs>`          → `Problem.evaluate X Y xs` : matrix of looked-up rows, or `none`
+* `dec <rawLen> <values> <ix>` → `Problem.decoupled`; `<ix>` is `all`, `i:<k>` or `l:<nats>`;
+                                  answer `full:<mat>`, `v:<vec>`, `ValueError` or `IndexError`
+* `noisy <F> <Z> <M>`          → `F + Z·M` (`Problem.noisy`)
+* `applied <L>`                → the matrix the code multiplies the normal rows by (`appliedM L`)
+* `gram <M>` / `llt <L>`       → `MᵀM` / `L Lᵀ`
+* `covok <M> <L>`              → `ok` / `fail` : `MᵀM = L Lᵀ` exactly (`covOK`)
+* `covclose <tol> <M> <S>`     → `ok` / `fail` : `|MᵀM − S| ≤ tol` entrywise (`covClose`)
+* `minmax <col>`               → `Problem.minMax col`
+* `minmaxclose <tol> <col> <out>` → `ok` / `fail` : `|minMax col − out| ≤ tol` entrywise
+* `colstats <col>`             → `min,max,mean,popVar` of the column (exact)
+* `scaled <tol> <col>`         → `ok` / `fail` : `|min| ≤ tol ∧ |max − 1| ≤ tol`
+* `moments <tol> <col>`        → `ok` / `fail` : `|mean| ≤ tol ∧ |popVar − 1| ≤ tol`, exact arithmetic
+* `std <col>`                  → `Problem.standardise col` (exact), or `irrational`
+* `stdfclose <rtol> <col> <out>` → `ok` / `fail` : `standardiseF` at `Float` agrees with `out`
+                                  entrywise within `rtol·(1 + |out|)`
+* `norm <data> <bounds>` / `unnorm <data> <bounds>` → matrix, or `ValueError`; `<bounds>` is a matrix
+                                  of `lower,upper` rows
+-/
 namespace VOPy.Drv.C20
-open VOPy VOPy.Proto
+open VOPy VOPy.Proto VOPy.Problem
+
+def parseIx (s : String) : Option EvalIndex :=
+  if s = "all" then some .all
+  else match s.splitOn ":" with
+    | ["i", k] => k.toNat?.map .one
+    | ["l", ks] => (parseNats ks).map .perRow
+    | _ => none
+
+def fmtDec : DecOut → String
+  | .full m => "full:" ++ fmtMat m
+  | .comps v => "v:" ++ fmtVec v
+  | .valueError => "ValueError"
+  | .indexError => "IndexError"
+
+def parseBounds (s : String) : Option (List (Rat × Rat)) :=
+  (parseMat s).bind (fun m => m.mapM (fun r => match r with
+    | [a, b] => some (a, b)
+    | _ => none))
+
+def okFail (b : Bool) : String := if b then "ok" else "fail"
+
+def fabs (x : Float) : Float := if x < 0 then -x else x
+
+def stdfClose (rtol : Float) (col out : List Float) : Bool :=
+  let m := standardiseF col
+  m.length == out.length &&
+  (List.zipWith (fun a b => decide (fabs (a - b) ≤ rtol * (1 + fabs b))) m out).all id
 
 def handle (args : List String) : String :=
   match args with
+  | ["nearest", x, X] =>
+    match parseVec x, parseMat X with
+    | some x, some X => match nearestFirst x X with
+      | some i => toString i
+      | none => "none"
+    | _, _ => bad
+  | ["band", x, X, t] =>
+    match parseVec x, parseMat X, parseRat t with
+    | some x, some X, some t => fmtNats (nearestBand x X t)
+    | _, _, _ => bad
+  | ["eval", X, Y, xs] =>
+    match parseMat X, parseMat Y, parseMat xs with
+    | some X, some Y, some xs => match evaluate X Y xs with
+      | some m => fmtMat m
+      | none => "none"
+    | _, _, _ => bad
+  | ["dec", n, v, ix] =>
+    match n.toNat?, parseMat v, parseIx ix with
+    | some n, some v, some ix => fmtDec (decoupled n v ix)
+    | _, _, _ => bad
+  | ["noisy", f, z, m] =>
+    match parseMat f, parseMat z, parseMat m with
+    | some F, some Z, some M => fmtMat (noisy F Z M)
+    | _, _, _ => bad
+  | ["applied", l] =>
+    match parseMat l with
+    | some L => fmtMat (appliedM L)
+    | _ => bad
+  | ["gram", m] =>
+    match parseMat m with
+    | some M => fmtMat (gram M)
+    | _ => bad
+  | ["llt", l] =>
+    match parseMat l with
+    | some L => fmtMat (llt L)
+    | _ => bad
+  | ["covok", m, l] =>
+    match parseMat m, parseMat l with
+    | some M, some L => okFail (covOK M L)
+    | _, _ => bad
+  | ["covclose", t, m, s] =>
+    match parseRat t, parseMat m, parseMat s with
+    | some t, some M, some S => okFail (covClose t M S)
+    | _, _, _ => bad
+  | ["minmax", c] =>
+    match parseVec c with
+    | some c => fmtVec (minMax c)
+    | _ => bad
+  | ["minmaxclose", t, c, o] =>
+    match parseRat t, parseVec c, parseVec o with
+    | some t, some c, some o => okFail (matClose t [minMax c] [o])
+    | _, _, _ => bad
+  | ["colstats", c] =>
+    match parseVec c with
+    | some c => if c.isEmpty then bad else fmtVec [colMin c, colMax c, mean c, popVar c]
+    | _ => bad
+  | ["scaled", t, c] =>
+    match parseRat t, parseVec c with
+    | some t, some c =>
+      if c.isEmpty then bad
+      else okFail (decide (rabs (colMin c) ≤ t) && decide (rabs (colMax c - 1) ≤ t))
+    | _, _ => bad
+  | ["moments", t, c] =>
+    match parseRat t, parseVec c with
+    | some t, some c =>
+      if c.isEmpty then bad
+      else okFail (decide (rabs (mean c) ≤ t) && decide (rabs (popVar c - 1) ≤ t))
+    | _, _ => bad
+  | ["std", c] =>
+    match parseVec c with
+    | some c => if c.isEmpty then bad else match standardise c with
+      | some v => fmtVec v
+      | none => "irrational"
+    | _ => bad
+  | ["stdfclose", t, c, o] =>
+    match parseRat t, parseVec c, parseVec o with
+    | some t, some c, some o =>
+      if c.isEmpty then bad
+      else okFail (stdfClose (ratToFloat t) (c.map ratToFloat) (o.map ratToFloat))
+    | _, _, _ => bad
+  | ["norm", d, b] =>
+    match parseMat d, parseBounds b with
+    | some D, some B => match normalize D B with
+      | some m => fmtMat m
+      | none => "ValueError"
+    | _, _ => bad
+  | ["unnorm", d, b] =>
+    match parseMat d, parseBounds b with
+    | some D, some B => match unnormalize D B with
+      | some m => fmtMat m
+      | none => "ValueError"
+    | _, _ => bad
   | _ => bad
 
 end VOPy.Drv.C20
